@@ -43,6 +43,21 @@ class BalancedMoveRule(BaseRule):
             return True
         return False
 
+    def is_side_addend(self, node: MathExpression) -> bool:
+        """Whether the node is added to its whole side of the equation, i.e. every
+        ancestor below the equation is an addition, or a subtraction that the node is
+        on the left side of."""
+        child = node
+        parent = node.parent
+        while parent is not None and not isinstance(parent, EqualExpression):
+            is_add = isinstance(parent, AddExpression)
+            is_minuend = isinstance(parent, SubtractExpression) and parent.left is child
+            if not is_add and not is_minuend:
+                return False
+            child = parent
+            parent = parent.parent
+        return parent is not None and parent.parent is None
+
     def get_type(self, node: MathExpression) -> Optional[str]:
         """Determine the configuration of the tree for this transformation.
 
@@ -69,7 +84,7 @@ class BalancedMoveRule(BaseRule):
 
             return _TYPE_CONST_OF_MULTIPLY
 
-        if isinstance(node.parent, AddExpression):
+        if isinstance(node.parent, AddExpression) and self.is_side_addend(node):
             if isinstance(node, ConstantExpression) or get_term_ex(node) is not None:
                 return _TYPE_ADDITION
 
